@@ -1,5 +1,5 @@
 package main
 
 func init() {
-	register(&propDef{ID: "T00", Rules: []func(*Ctx){ruleOrderStart, ruleOrderO4, ruleSecureOrder, ruleCmp, ruleSentinelSecure}, Explanation: "test", NotDecided: "n/a"})
+	register(&propDef{ID: "T00", Rules: []func(*Ctx){ruleIDMux, ruleIDGRPC, ruleIDKnock, ruleSlot, ruleMuxSer}, Explanation: "test", NotDecided: "n/a"})
 }
